@@ -9,11 +9,13 @@ require (
 	github.com/benbjohnson/clock v1.3.0
 	github.com/bio-routing/bio-rd v0.0.0
 	go.etcd.io/gofail v0.2.0
+	google.golang.org/grpc v1.56.3
 	google.golang.org/protobuf v1.33.0
 )
 
 require (
 	github.com/bio-routing/tflow2 v0.0.0-20181230153523-2e308a4a3c3a // indirect
+	github.com/cenkalti/backoff/v4 v4.2.0 // indirect
 	github.com/golang/protobuf v1.5.3 // indirect
 	github.com/sirupsen/logrus v1.6.0 // indirect
 	github.com/vishvananda/netlink v1.0.0 // indirect
@@ -25,7 +27,6 @@ require (
 	golang.org/x/sys v0.31.0 // indirect
 	golang.org/x/text v0.23.0 // indirect
 	google.golang.org/genproto v0.0.0-20230410155749-daa745c078e1 // indirect
-	google.golang.org/grpc v1.56.3 // indirect
 )
 
 replace github.com/bio-routing/bio-rd => /repo
